@@ -47,6 +47,29 @@ Proof.
   rewrite dot_vscale. unfold gz_alpha, gz_inv. destruct (Rlt_dec gz_eps0 (dot dE dE)); [lra|ring].
 Qed.
 
+(* Below the guard NOTHING is enforced by the code: S_hat = s and the defect of the discrete-gradient identity is exactly
+   the midpoint-rule remainder W1 - W0 - s.dE (gonzalez_below_guard_defect).  No unconditional bound in terms of eps0 exists
+   (W1, W0, s are arbitrary inputs of the formula); the only bound is conditional: IF the remainder is second order,
+   |W1 - W0 - s.dE| <= M (dE.dE)  (for a smooth energy M is of the order of the third derivative of W times |dE|),
+   THEN the defect per Gauss point is <= M eps0. *)
+Theorem gonzalez_below_guard_defect : forall W1 W0 s dE, length s = length dE -> dot dE dE <= gz_eps0 ->
+  dot (gz_Shat W1 W0 s dE) dE - (W1 - W0) = - (W1 - W0 - dot s dE).
+Proof. intros. rewrite gonzalez_guard by assumption. ring. Qed.
+
+Theorem gonzalez_below_guard_bound : forall W1 W0 s dE M, length s = length dE -> dot dE dE <= gz_eps0 -> 0 <= M ->
+  Rabs (W1 - W0 - dot s dE) <= M * dot dE dE ->
+  Rabs (dot (gz_Shat W1 W0 s dE) dE - (W1 - W0)) <= M * gz_eps0.
+Proof.
+  intros W1 W0 s dE M Hl Hd HM Hb. rewrite gonzalez_below_guard_defect by assumption. rewrite Rabs_Ropp.
+  eapply Rle_trans; [exact Hb|]. apply Rmult_le_compat_l; assumption.
+Qed.
+
+(* the guard can be hit with a non-zero defect: the identity genuinely fails there (so the hypothesis of
+   gonzalez_discrete_gradient cannot be dropped) *)
+Example gonzalez_guard_defect_nonzero :
+  dot [0;0;0] [0;0;0] <= gz_eps0 /\ dot (gz_Shat 1 0 [1;1;1] [0;0;0]) [0;0;0] <> 1 - 0.
+Proof. split. unfold gz_eps0; simpl; lra. rewrite gonzalez_guard; [simpl; lra | reflexivity | unfold gz_eps0; simpl; lra]. Qed.
+
 Example gonzalez_nonvacuous : gz_eps0 < dot [1;0;0] [1;0;0] /\ dot (gz_Shat 5 2 [7;1;1] [1;0;0]) [1;0;0] = 5 - 2.
 Proof. split. unfold gz_eps0; simpl; lra. apply gonzalez_discrete_gradient. reflexivity. unfold gz_eps0; simpl; lra. Qed.
 
@@ -64,3 +87,4 @@ Qed.
 
 Print Assumptions gonzalez_discrete_gradient.
 Print Assumptions assembled_discrete_gradient.
+Print Assumptions gonzalez_below_guard_bound.
